@@ -33,6 +33,7 @@ type AssertSpec struct {
 	Callee  string // at call <callee>#<k>
 	Ordinal int
 	Cl      *Clause
+	Assume  bool // unchecked assumption (listed in the evidence) instead of an obligation
 }
 
 type FuncSpec struct {
@@ -84,7 +85,7 @@ type PkgSpec struct {
 
 var clauseKeywords = map[string]bool{
 	"use": true, "func": true, "props": true, "requires": true, "ensures": true, "modifies": true,
-	"loop": true, "invariant": true, "decreases": true, "flags": true, "ghost": true, "assert": true, "bind": true, "table": true, "define": true,
+	"loop": true, "invariant": true, "decreases": true, "flags": true, "ghost": true, "assert": true, "assume": true, "bind": true, "table": true, "define": true,
 }
 
 func splitLabel(kw string) (string, string) {
@@ -226,7 +227,7 @@ func parseContractFile(path, pkgPath string, ps *PkgSpec) error {
 				}
 				curLoop = &LoopSpec{}
 				cur.Loops[k] = curLoop
-			case "requires", "ensures", "modifies", "invariant", "decreases", "assert":
+			case "requires", "ensures", "modifies", "invariant", "decreases", "assert", "assume":
 				cl := &Clause{Label: label, Src: rest, File: path, Line: lineNo}
 				all = append(all, cl)
 				lastClause = cl
@@ -256,6 +257,8 @@ func parseContractFile(path, pkgPath string, ps *PkgSpec) error {
 				case "assert":
 					// assert at call <callee>#<k> :: expr
 					cur.Asserts = append(cur.Asserts, &AssertSpec{Cl: cl})
+				case "assume":
+					cur.Asserts = append(cur.Asserts, &AssertSpec{Cl: cl, Assume: true})
 				}
 			}
 		}
@@ -263,7 +266,7 @@ func parseContractFile(path, pkgPath string, ps *PkgSpec) error {
 	// parse expressions
 	for _, cl := range all {
 		src := cl.Src
-		if src == "" {
+		if src == "" || strings.HasPrefix(src, "at call ") {
 			continue
 		}
 		e, err := parseCExpr(src)
@@ -288,6 +291,9 @@ func parseContractFile(path, pkgPath string, ps *PkgSpec) error {
 	// program-point asserts: "at call X#k :: e"
 	for _, fs := range ps.Funcs {
 		for _, a := range fs.Asserts {
+			if a.Callee != "" {
+				continue // already processed (earlier file of the same package)
+			}
 			src := a.Cl.Src
 			if !strings.HasPrefix(src, "at call ") {
 				return fmt.Errorf("%s:%d: assert must be 'at call <callee>#<k> :: expr'", a.Cl.File, a.Cl.Line)
